@@ -127,7 +127,7 @@ def validateDataType (m : Metadata) : DataType → R Unit
   | .map entry _ => do
     noStrategy m
     match entry with
-    | .mk _ (.struct (.cons _ (.cons _ .nil))) _ _ => pure ()
+    | .mk _ (.struct (.cons kf (.cons vf .nil))) _ _ => do validateField kf; validateField vf
     | _ => fail "Invalid child data type for map, expected struct with 2 fields"
   | .list f => do noStrategy m; validateField f
   | .largeList f => do noStrategy m; validateField f
